@@ -429,6 +429,13 @@ func genInline(fset *token.FileSet, p *packages.Package, callerFile *ast.File, f
 			return ""
 		}
 		if n, ok := fileImports[pk.Path()]; ok && n != "" && n != "_" && n != "." {
+			if localShadows(info, callerFile, call.Pos(), n) {
+				// a local of the caller has the package's name (`var primary primary.PrimaryStorage`):
+				// refer to the package through a fresh alias in the generated declarations
+				alias := "__pkg_" + n
+				addImports[alias] = pk.Path()
+				return alias
+			}
 			return n
 		}
 		// add an import under the package's own name, unless that name means something else here
